@@ -229,6 +229,16 @@ class SimTor(object):
                 cleared.add(k)
             if val is None or val == '':
                 continue
+            # typed options: Tor refuses the whole SETCONF for a value that is not of the option's type
+            t = self.conf_types.get(k, '')
+            bad = (t == 'Boolean' and val not in ('0', '1')) or (t == 'Boolean+Auto' and val not in ('0', '1', 'auto'))
+            if t in ('Integer', 'SignedInteger', 'Port', 'DataSize'):
+                try:
+                    int(val)
+                except ValueError:
+                    bad = True
+            if bad:
+                return (513, [('line', 'Unacceptable option value: %s %r is malformed' % (k, val))])
             if self.is_linelist(k):
                 new[k].append(val)
             else:
